@@ -147,9 +147,16 @@ impl Cell for str {
                 boundary += g.len();
                 cols += c;
             }
-            // Don't add the delimiter if we just trimmed whitespace.
+            // Don't add the delimiter if we just trimmed whitespace: keep the
+            // next whitespace grapheme instead, if there is room for it.
             if self[boundary..].trim().is_empty() {
-                self[..boundary + 1].to_owned()
+                let next = self[boundary..]
+                    .graphemes(true)
+                    .next()
+                    .filter(|g| cols + Cell::width(*g) <= width)
+                    .map_or(0, str::len);
+
+                self[..boundary + next].to_owned()
             } else {
                 format!("{}{delim}", &self[..boundary])
             }
